@@ -81,7 +81,6 @@ def handle (op : String) (j : Json) : Option (Except String Json) :=
   | "c10.with_units" => some do
       let x ← rat j "x"
       let u ← str j "units"
-      if x = 0 then pure (jval (Val.plain x)) else
       match evalStr liveCfg u.toList with
       | .error e => pure (jerr e)
       | .ok uv => pure (jval (withUnits liveCfg.thr x uv))
